@@ -34,6 +34,20 @@ def opsEigFloat : List (String × Rd (List String)) := [
       let p ← hexFloat; let q ← hexFloat; let pq ← hexFloat
       let r := Jacobi.calculateReal Float.abs Float.sqrt (fun a b => a == b) (fun x => x < 0) 100.0 p q pq
       pure [hexOfFloat r.s, hexOfFloat r.tau, hexOfFloat r.correction]),
+  ("jac.real", do
+      let n ← nat
+      let rec readN : Nat → Rd (List Float)
+        | 0 => pure []
+        | k+1 => do let x ← hexFloat; let r ← readN k; pure (x :: r)
+      let vals ← readN (n*(n+1)/2)
+      -- upper triangle, row by row
+      let idx (i j : Nat) : Nat := let (i, j) := if i ≤ j then (i, j) else (j, i); i*n - i*(i-1)/2 + (j - i)
+      let arr := vals.toArray
+      let a : Mat n n Float := fun i j => arr.getD (idx i.val j.val) 0
+      let L : Jacobi.SolverLeaves Float := ⟨Float.abs, Float.sqrt, (fun a b => a == b), (fun x => x < 0), (fun a b => a > b), 100.0, 0.2⟩
+      let fa := Mat.freeze a
+      let st := Jacobi.jacobi L (Mat.thaw fa)
+      pure ((Vec.toList st.d).map hexOfFloat ++ (Mat.toList st.v).map hexOfFloat)),
   ("jac.complex2", do
       let p ← hexFloat; let q ← hexFloat; let pq ← cxF
       match Jacobi.calculateComplex fsqrt (fun x => x < 0) p q pq with
